@@ -16,6 +16,7 @@ package l4throttle
 
 import (
 	"context"
+	"errors"
 	"fmt"
 	"net"
 	"strconv"
@@ -261,6 +262,15 @@ func (tc throttledConn) Read(p []byte) (int, error) {
 		zap.Error(err))
 
 	return n, err
+}
+
+// CloseWrite forwards a half-close to the throttled connection; without it
+// the proxy handler cannot propagate an upstream's end-of-stream to the client.
+func (tc throttledConn) CloseWrite() error {
+	if cw, ok := tc.Conn.(interface{ CloseWrite() error }); ok {
+		return cw.CloseWrite()
+	}
+	return errors.ErrUnsupported
 }
 
 // Interface guards
